@@ -116,8 +116,13 @@ def check(case):
         res.see("asymmetric_metric_cases")
     DQ = knncase.query_distances(case, m, Q, IQ)
     single = []
+    buf = np.empty((1, Q.shape[1]))          # ONE array object, refilled in place for every single-sample call
+    ibuf = np.zeros(1, dtype=int)
     for x in range(len(Q)):
-        c = knncase.predict(case, m, Q[x:x + 1], None if IQ is None else IQ[x:x + 1])
+        buf[:] = Q[x]
+        if IQ is not None:
+            ibuf[:] = IQ[x]
+        c = safe_call(m.predict, buf, ibuf) if IQ is not None else safe_call(m.predict, buf)
         if not c.ok:
             res.violate("exception", f"C14/exception/predict/{kind}/{type(c.exc).__name__}", f"predict raised at {c.where}: {str(c.exc)[:200]}")
             return res
